@@ -539,15 +539,23 @@ package actor
 //@ func (*Context).onKill
 //@   trusted
 //@   modifies anyold, gmap(told), gmap(toldn), gmap(tells), gmap(unregistered), gmap(unsuball), gmap(published), gmap(resumes), gmap(pauses), gmap(failures), ghost(calls_behavior)
+// the pause / resume commands a supervisor sends (C09): a pause command pauses THIS actor's mailbox once, a resume
+// command resumes it once; nothing else is paused or resumed, nobody is told anything
 //@ func (*Context).onCommand
-//@   trusted
-//@   modifies anyold, gmap(published), gmap(resumes), gmap(pauses)
+//@   requires ctxwf(c) && message != nil
+//@   modifies gmap(published), gmap(resumes), gmap(pauses)
+//@   ensures  message.Command == messages.CommandPauseMailbox ==> gcount(pauses, c.mailbox) == old(gcount(pauses, c.mailbox)) + 1 && forall m vivid.Mailbox :: gcount(resumes, m) == old(gcount(resumes, m))
+//@   ensures  message.Command == messages.CommandResumeMailbox ==> gcount(resumes, c.mailbox) == old(gcount(resumes, c.mailbox)) + 1 && forall m vivid.Mailbox :: gcount(pauses, m) == old(gcount(pauses, m))
+//@   ensures  forall m vivid.Mailbox :: m != c.mailbox ==> gcount(pauses, m) == old(gcount(pauses, m)) && gcount(resumes, m) == old(gcount(resumes, m))
 //@ func (*Context).onRestart
 //@   trusted
 //@   modifies anyold, gmap(told), gmap(toldn), gmap(tells), gmap(unregistered), gmap(unsuball), gmap(published), gmap(resumes), gmap(pauses), gmap(failures), ghost(calls_behavior)
+// Ping (C15): exactly one PongMessage (a user message) goes back to the sender of the ping, to nobody else
 //@ func (*Context).onPing
-//@   trusted
-//@   modifies anyold, gmap(told), gmap(toldn), gmap(tells)
+//@   requires ctxwf(c) && c.envelop != nil && envSender(c.envelop) != nil
+//@   modifies gmap(told), gmap(toldn), gmap(tells)
+//@   ensures  gcount(told, envSender(c.envelop), 2 * tagof("*messages.PongMessage")) == old(gcount(told, envSender(c.envelop), 2 * tagof("*messages.PongMessage"))) + 1
+//@   ensures  forall r vivid.ActorRef, k mathint :: (r != envSender(c.envelop) || k != 2 * tagof("*messages.PongMessage")) ==> gcount(told, r, k) == old(gcount(told, r, k))
 // a replaced envelope is immutable: its observers are its constructor's arguments (trusted link between the
 // abstract observers of vivid.Envelop and this implementation; (*replacedEnvelop).Message etc. return the fields)
 //@ func newReplacedEnvelop
